@@ -274,6 +274,7 @@ def run(ck, ctx):
             lc = LenClass(J)
             for k_ in EAS_PARAMS:
                 lc.seed(E.ins[k_], ("EV", "in"))
+            loc_ = getattr(loc_, "entry", loc_)
             cls_ = {p_: lc.of(J.res(loc_[p_], E.st)) for p_ in params}
             ref = cls_[params[0]]
             ok = all(is_def(c_) for c_ in cls_.values()) and all(c_ == ref for c_ in cls_.values())
